@@ -50,7 +50,7 @@ class Interp:
         if isinstance(v, bool):
             return VBool(z3.BoolVal(v))
         if isinstance(v, int):
-            return VInt(self.ar.val(v), py_trailing_zeros(v))
+            return VInt(self.ar.val(v), py_trailing_zeros(v), v if v >= 0 else None)
         if isinstance(v, float):
             return VReal(RealOf(v))
         if v is None:
@@ -64,7 +64,7 @@ class Interp:
         raise Unsupported('constant %r' % (v,))
 
     def vint(self, n):
-        return VInt(self.ar.val(n), py_trailing_zeros(n))
+        return VInt(self.ar.val(n), py_trailing_zeros(n), n if n >= 0 else None)
 
     def idx(self, v):
         """V -> Int-sorted index term"""
@@ -410,10 +410,35 @@ class Interp:
         tza = a.tz if isinstance(a, VInt) else 0
         tzb = b.tz if isinstance(b, VInt) else 0
         if z3.is_int(ta):
-            return self.binop_int(op, ta, tb, tza, tzb)
+            ba = a.bits if isinstance(a, VInt) else 1
+            bb = b.bits if isinstance(b, VInt) else 1
+            r = self.binop_int(op, ta, tb, tza, tzb, ba, bb)
+            return r
         return self.binop_bv(op, ta, tb)
 
-    def binop_int(self, op, ta, tb, tza, tzb):
+    def binop_int(self, op, ta, tb, tza, tzb, ba=None, bb=None):
+        r = self.binop_int0(op, ta, tb, tza, tzb, ba, bb)
+        if isinstance(r, VInt) and r.bits is None:
+            # possible-bit masks: exact bookkeeping for mask / shift / disjoint or / disjoint add
+            ca, cb = self.ar.as_long(ta), self.ar.as_long(tb)
+            if isinstance(op, ast.BitAnd):
+                if cb is not None and cb >= 0:
+                    r.bits = cb & ba if ba is not None else cb
+                elif ca is not None and ca >= 0:
+                    r.bits = ca & bb if bb is not None else ca
+            elif isinstance(op, ast.LShift) and ba is not None and cb is not None and 0 <= cb < 256:
+                r.bits = ba << cb
+            elif isinstance(op, ast.RShift) and ba is not None and cb is not None and cb >= 0:
+                r.bits = ba >> cb
+            elif isinstance(op, ast.Mult) and ba is not None and cb is not None and cb > 0 and cb & (cb - 1) == 0:
+                r.bits = ba << (cb.bit_length() - 1)
+            elif isinstance(op, (ast.BitOr, ast.Add)) and ba is not None and bb is not None and ba & bb == 0:
+                r.bits = ba | bb
+            elif isinstance(op, ast.BitOr) and ba is not None and bb is not None:
+                r.bits = ba | bb
+        return r
+
+    def binop_int0(self, op, ta, tb, tza, tzb, ba=None, bb=None):
         st, ar = self.st, self.ar
         ca, cb = ar.as_long(ta), ar.as_long(tb)
         if isinstance(op, ast.Add):
@@ -473,6 +498,9 @@ class Interp:
                 return VInt(tb, tzb)
             if cb == 0:
                 return VInt(ta, tza)
+            if ba is not None and bb is not None and ba & bb == 0:
+                # the operands cannot have a common set bit (masks are exact over-approximations): a | b == a + b
+                return VInt(z3.simplify(ta + tb), min(tza, tzb))
             # a | b == a + b when 0 <= lowpart < 2^k and highpart is a multiple of 2^k
             cands = []
             if 0 < tza < 10 ** 6:
@@ -620,7 +648,8 @@ class Interp:
                 return VBool(z3.If(c, a.t, b.t))
             if isinstance(a, VReal):
                 return VReal(z3.If(c, a.t, b.t))
-            return VInt(z3.If(c, np_[1], np_[2]), min(a.tz, b.tz))
+            return VInt(z3.If(c, np_[1], np_[2]), min(a.tz, b.tz),
+                        (a.bits | b.bits) if (a.bits is not None and b.bits is not None) else None)
         if np_ and np_[0] == 'real':
             return VReal(z3.If(c, np_[1], np_[2]))
         if isinstance(a, VRef) and isinstance(b, VRef) and a.cls == b.cls:
